@@ -9,7 +9,7 @@ import TrompModel.Model.Ring
 namespace Tromp.Cxx
 
 /-- `list_elem<T>::is_linked` — translated from include/trompeloeil/mock.hpp:1411 -/
-def ring_is_linked (this : Ring.Ptr) (h : Ring.Heap) : Bool := Id.run do
+def ring_is_linked (this : Ring.Ptr) (h : Ring.Heap Ring.Ptr) : Bool := Id.run do
   return ((h.next this) != this)
 
 end Tromp.Cxx
